@@ -1,0 +1,89 @@
+//go:build verif
+
+package kgo
+
+// Verification contracts (comments only), read by /verif/govc. Compiled only with -tags verif; no code.
+
+// ---- C03: producer buffering limits (the admission arithmetic under producer.mu) ----
+// producer.mu protects bufferedRecords, bufferedBytes and blockedBytes. Ghost counter `buffered`: one
+// contribution per record that Produce has admitted and whose promise has not run; the record carries its
+// contribution from produce to finishRecordPromise.
+// Invariant (holds whenever producer.mu is free, for all schedules of producers, promise completions and Flush):
+//   bufferedRecords == buffered, 0 <= bufferedRecords <= MaxBufferedRecords, and when MaxBufferedBytes is set,
+//   bufferedBytes <= MaxBufferedBytes.
+//@ monitor (p *producer) mu
+//@   prop C03
+//@   cond c
+//@   counter buffered
+//@   protects p.bufferedRecords, p.bufferedBytes, p.blockedBytes
+//@   invariant [count] p.bufferedRecords >= 0 && uint64(p.bufferedRecords) == buffered
+//@   invariant [records-within-limit] p.bufferedRecords <= p.cl.cfg.maxBufferedRecords
+//@   invariant [bytes-within-limit] p.cl.cfg.maxBufferedBytes > 0 ==> p.bufferedBytes <= p.cl.cfg.maxBufferedBytes
+
+// produce: a record is admitted without blocking only when there is room for it; at the limit a non-blocking
+// caller (TryProduce, or manual flushing) fails with ErrMaxBuffered without being counted. A blocked caller hands
+// the lock to the goroutine produce$1 (verified below), which returns with the lock held once there is room; that
+// hand-off through a goroutine and a channel is outside what the monitor discipline can follow and is stated as
+// the one assumption of this function: on the blocking path, when the counters are incremented, what produce$1
+// guarantees holds.
+//@ func (cl *Client) produce(ctx context.Context, r *Record, promise func(*Record, error), block bool)
+//@   prop C03
+//@   requires cl.producer.cl == cl
+//@   frozen cl.producer.cl, cl.cfg.maxBufferedRecords, cl.cfg.maxBufferedBytes
+//@   site store bufferedRecords#0 assume [lock-hand-off-from-the-waiting-goroutine] (overMaxRecs || overMaxBytes) ==> (prev >= 0 && uint64(prev) == buffered && prev < cl.cfg.maxBufferedRecords && (cl.cfg.maxBufferedBytes > 0 ==> prev2bytes(p.bufferedBytes, userSize) <= cl.cfg.maxBufferedBytes))
+//@   site store bufferedRecords#0 ghost inc buffered
+//@   site store bufferedRecords#0 assert [admitted-only-with-room] prev < cl.cfg.maxBufferedRecords && val == prev + 1
+//@   site call Add#0 assert [blocks-only-a-blocking-produce-without-manual-flushing] block && !cl.cfg.manualFlushing && (overMaxRecs || overMaxBytes)
+//@   site call promiseRecordBeforeBuf#3 assert [at-the-limit-non-blocking-fails-uncounted] (overMaxRecs || overMaxBytes) && (!block || cl.cfg.manualFlushing)
+
+//@ spec prev2bytes(b int64, u int64) int64 = b + u
+
+// the goroutine that waits for room on behalf of a blocked Produce: it leaves its loop (holding the lock, which it
+// does not release) only when the wait was cancelled or there is room for the record.
+//@ func (cl *Client) produce$1()
+//@   prop C03
+//@   requires (*p).cl == *cl
+//@   frozen (*p).cl, (*cl).cfg.maxBufferedRecords, (*cl).cfg.maxBufferedBytes
+//@   site call close#0 assert [room-or-cancelled] !*quit ==> ((*p).bufferedRecords < (*cl).cfg.maxBufferedRecords && ((*cl).cfg.maxBufferedBytes > 0 ==> (*p).bufferedBytes + *userSize <= (*cl).cfg.maxBufferedBytes))
+//@   site call close#0 assert [invariant-handed-back] (*p).bufferedRecords >= 0 && uint64((*p).bufferedRecords) == buffered && (*p).bufferedRecords <= (*cl).cfg.maxBufferedRecords && ((*cl).cfg.maxBufferedBytes > 0 ==> (*p).bufferedBytes <= (*cl).cfg.maxBufferedBytes)
+
+// a finished promise un-counts exactly its own record (caller protocol, listed: the record was admitted and not
+// yet un-counted; its size is not negative).
+//@ func (cl *Client) finishRecordPromise(pr promisedRec, err error, beforeBuffering bool) (broadcast bool)
+//@   prop C03
+//@   requires cl.producer.cl == cl
+//@   frozen cl.producer.cl, cl.cfg.maxBufferedRecords, cl.cfg.maxBufferedBytes
+//@   token buffered 1
+//@   site store bufferedBytes#0 assume [record-size-counted-and-non-negative] userSize >= 0 && prev >= userSize
+//@   site store bufferedRecords#0 ghost dec buffered
+//@   site store bufferedRecords#0 assert [uncounts-one] val == prev - 1 && prev >= 1
+//@   ensures [counted-records-are-uncounted-once] !beforeBuffering ==> mine(buffered) == 0
+//@   ensures [uncounted-records-are-not] beforeBuffering ==> mine(buffered) == 1
+
+// Flush's waiter closes `done` only when it was cancelled or nothing is buffered or blocked any more.
+//@ func (cl *Client) Flush$1()
+//@   prop C03
+//@   frozen (*p).cl, (*p).cl.cfg.maxBufferedRecords, (*p).cl.cfg.maxBufferedBytes
+//@   site call close#0 assert [done-only-when-drained-or-cancelled] *quit || (*p).bufferedRecords + int64((*p).blocked.v) <= 0
+
+// the remaining functions that lock producer.mu only read the protected state
+//@ func (cl *Client) BufferedProduceRecords() (n int64)
+//@   prop C03
+//@   frozen cl.producer.cl, cl.producer.cl.cfg.maxBufferedRecords, cl.producer.cl.cfg.maxBufferedBytes
+//@ func (cl *Client) BufferedProduceBytes() (n int64)
+//@   prop C03
+//@   frozen cl.producer.cl, cl.producer.cl.cfg.maxBufferedRecords, cl.producer.cl.cfg.maxBufferedBytes
+//@ func (cl *Client) maybeRecoverProducerID(ctx context.Context) (necessary bool, did bool, err error)
+//@   prop C03
+//@   frozen cl.producer.cl, cl.producer.cl.cfg.maxBufferedRecords, cl.producer.cl.cfg.maxBufferedBytes
+//@ func (cl *Client) Flush(ctx context.Context) (err error)
+//@   prop C03
+//@   frozen cl.producer.cl, cl.producer.cl.cfg.maxBufferedRecords, cl.producer.cl.cfg.maxBufferedBytes
+//@ func (cl *Client) produce$2(err error)
+//@   prop C03
+//   (the lock arrives from the waiting goroutine, which hands the invariant back intact - asserted there)
+//@   site call Unlock#0 assume [lock-hand-off-from-the-waiting-goroutine] (*p).bufferedRecords >= 0 && uint64((*p).bufferedRecords) == buffered && (*p).bufferedRecords <= (*p).cl.cfg.maxBufferedRecords && ((*p).cl.cfg.maxBufferedBytes > 0 ==> (*p).bufferedBytes <= (*p).cl.cfg.maxBufferedBytes)
+//@   frozen (*p).cl, (*p).cl.cfg.maxBufferedRecords, (*p).cl.cfg.maxBufferedBytes
+//@ func (cl *Client) produce$2$1()
+//@   prop C03
+//@   frozen (*p).cl, (*p).cl.cfg.maxBufferedRecords, (*p).cl.cfg.maxBufferedBytes
